@@ -101,6 +101,17 @@ func (ctx *Ctx) genFunc(fn *ssa.Function, ct *Contract, houdini map[int][]*Claus
 		vc.ParamInfo = append(vc.ParamInfo, pi)
 	}
 	f.inlineArgs = args
+	isInit := fn.Name() == "init" && fn.Synthetic != ""
+	if isInit {
+		g.skipInvs = true
+		// the initialiser runs once: its guard is false on entry
+		if gd, ok := fn.Pkg.Members["init$guard"].(*ssa.Global); ok {
+			addr := g.globalAddrN(fn.Pkg.Pkg.Path(), gd.Name(), tBool)
+			g.storeVal(st, addr, Val{Typ: tBool, Comps: []Term{boolLit(false)}})
+		}
+	} else {
+		g.assumeGlobalInvs(st)
+	}
 	pre := st.clone()
 	if ct != nil {
 		ev := f.topEval(st, nil, args, nil)
@@ -126,6 +137,20 @@ func (ctx *Ctx) genFunc(fn *ssa.Function, ct *Contract, houdini map[int][]*Claus
 	for ri, r := range f.rets {
 		// cover: the return is reachable
 		vc.Covers = append(vc.Covers, &Obligation{Name: fmt.Sprintf("%s#cover[return%d]", vc.Key, ri), Kind: "cover", Fn: vc.Key, Cond: r.st.cond, Goal: boolLit(false), PreludeLen: len(g.lines)})
+		if isInit {
+			for _, inv := range ctx.specs.Invs {
+				if inv.Pkg != fn.Pkg.Pkg.Path() {
+					continue
+				}
+				ev := &Eval{g: g, st: r.st, vars: map[string]Val{}, pkg: fn.Pkg.Pkg}
+				t, err := ev.evalBool(inv.Expr)
+				if err != nil {
+					g.specErrs = append(g.specErrs, fmt.Sprintf("invariant %q: %v", inv.Text, err))
+					continue
+				}
+				g.oblige(r.st, "post", 0, "invariant "+inv.Text, t)
+			}
+		}
 		if ct == nil {
 			continue
 		}
